@@ -31,8 +31,14 @@
 
 use std::cmp::{max, min};
 use std::collections::BTreeSet;
+#[cfg(not(yamaquasi_verif))]
 use std::sync::atomic::{AtomicBool, AtomicUsize, Ordering};
+#[cfg(yamaquasi_verif)]
+use simsync::sync::atomic::{AtomicBool, AtomicUsize, Ordering};
+#[cfg(not(yamaquasi_verif))]
 use std::sync::RwLock;
+#[cfg(yamaquasi_verif)]
+use simsync::sync::RwLock;
 
 use bnum::cast::CastFrom;
 use num_traits::One;
